@@ -93,13 +93,16 @@ fn handshake(ctx: &mut Ctx) {
     ctx.out.extra_shape = x;
     let expect = should_admit(&c);
     let extra = if ctx.plan(2) == 0 { 0 } else { 1 + ctx.plan(4) };
+    let mon_order = ctx.plan(3);
     let out = Rc::new(RefCell::new(Out { admitted_event: false, failed_event: false, connect_result: None, traffic_flowed: false, released: false, leaked_delivery: false, done: false }));
     let (o2, c2) = (out.clone(), c.clone());
     rt::task::spawn_local("app", async move {
         let c = c2;
         let kind = c.kind;
         let mut sock = AnySock::new(kind, None);
-        let mut mon = sock.monitor();
+        // the monitor may be installed before bind/connect, only after bind, or replaced after bind:
+        // handshake outcomes go to whichever monitor is installed when they happen
+        let mut mon = if mon_order != 1 { Some(sock.monitor()) } else { None };
         // the scripted peer's handshake bytes
         let mut g = rc::greeting(c.version.0, c.version.1, c.mech, false);
         match c.sig {
@@ -145,15 +148,22 @@ fn handshake(ctx: &mut Ctx) {
                 let _ = p.send(&h2).await;
                 p
             });
+            if mon.is_none() {
+                mon = Some(sock.monitor());
+            }
             let r = sock.connect(&lep).await;
             o2.borrow_mut().connect_result = Some(r.is_ok());
             peer = acc.await.expect("acceptor");
         } else {
             let ep = sock.bind("tcp://127.0.0.1:0").await.expect("bind").to_string();
+            if mon_order != 0 {
+                mon = Some(sock.monitor());
+            }
             peer = RawPeer::connect(&ep).expect("connect");
             let _ = peer.send(&hello).await;
         }
         rt::task::idle().await;
+        let mut mon = mon.expect("monitor installed");
         while let Ok(Some(ev)) = mon.try_next() {
             match ev {
                 SocketEvent::Accepted(..) | SocketEvent::Connected(..) => o2.borrow_mut().admitted_event = true,
@@ -509,7 +519,7 @@ pub fn def() -> PropDef {
     PropDef {
         id: "C04",
         level: "fault_enumeration",
-        rule: "handshake: grid = local socket type (9) x peer Socket-Type (12 names, unknown, missing) x version {1.0,2.1,3.0,3.1,4.0} x mechanism {NULL,PLAIN,CURVE,unknown} x signature {ok, byte 0 wrong, byte 9 wrong} x identity {none, empty, 1, 255, 256 bytes} x first item {READY, other command, message} x side {accepted, connected} = 226800 scripted handshakes, each with drawn segmentation/schedule and, in half of the cases, drawn extra READY metadata (a short property, one 400-byte value, twenty properties, a property ahead of Socket-Type) that must decide nothing, compared with a reference admission predicate written from the statement and the RFC compatibility table (thorough: enumerated completely; quick: pseudo-random sample); observables: application message exchanged or not, monitor Accepted/AcceptFailed, connect() result, connection closed by the socket; registration: socket type (9) x 2..4 admissible peers, each announcing no identity, an empty one or a distinct non-empty one (1 byte, 255 bytes, leading zero byte, trailing zero bytes, white space), joining by connect-in at drawn times or by being dialled: exactly one admission event per peer, under the announced identity resp. pairwise distinct ones, no admitted connection closed by the socket, and each peer's traffic flows exactly once (probe delivered once / one copy per subscriber / n sends reach n peers); compat_table: the 144 SocketType::compatible queries (pure enumeration, a side check); distinct = distinct (configuration, plan, schedule, transport)",
+        rule: "handshake: grid = local socket type (9) x peer Socket-Type (12 names, unknown, missing) x version {1.0,2.1,3.0,3.1,4.0} x mechanism {NULL,PLAIN,CURVE,unknown} x signature {ok, byte 0 wrong, byte 9 wrong} x identity {none, empty, 1, 255, 256 bytes} x first item {READY, other command, message} x side {accepted, connected} = 226800 scripted handshakes, each with drawn segmentation/schedule and, in half of the cases, drawn extra READY metadata (a short property, one 400-byte value, twenty properties, a property ahead of Socket-Type) that must decide nothing, and a drawn moment at which the monitor is installed (before bind, only after bind, or replaced after bind), compared with a reference admission predicate written from the statement and the RFC compatibility table (thorough: enumerated completely; quick: pseudo-random sample); observables: application message exchanged or not, monitor Accepted/AcceptFailed, connect() result, connection closed by the socket; registration: socket type (9) x 2..4 admissible peers, each announcing no identity, an empty one or a distinct non-empty one (1 byte, 255 bytes, leading zero byte, trailing zero bytes, white space), joining by connect-in at drawn times or by being dialled: exactly one admission event per peer, under the announced identity resp. pairwise distinct ones, no admitted connection closed by the socket, and each peer's traffic flows exactly once (probe delivered once / one copy per subscriber / n sends reach n peers); compat_table: the 144 SocketType::compatible queries (pure enumeration, a side check); distinct = distinct (configuration, plan, schedule, transport)",
         assumptions: &["'known mechanism' is read as NULL, PLAIN or CURVE in the greeting, as the statement says (the library then performs the NULL handshake)", "the RFC table used by the oracle lists PAIR-PAIR, PUB/XPUB-SUB/XSUB, REQ-REP/ROUTER, DEALER-REP/DEALER/ROUTER, ROUTER-ROUTER, PUSH-PULL"],
         strata: vec![
             Stratum { name: "handshake", quick: 150_000, thorough: (GRID_SIZE) * 10, exhaustive: (false, true), run: handshake, what: "configuration grid of scripted handshakes vs the admission predicate" },
